@@ -1,5 +1,5 @@
 From Coq Require Import NArith ZArith.
-From GoMC Require Import Model.C10.
+From GoMC Require Import Model.C10 Model.C10_interp.
 Require Import ExtrOcamlBasic.
 (* Z.of_N only so that the shared driver/conv.ml finds the extracted type z *)
-Extraction "c10_model.ml" toy_trace toy_ref toyE Z.of_N.
+Extraction "c10_model.ml" toy_trace toy_ref toyE Z.of_N toy_interp_trace.
